@@ -375,3 +375,31 @@ PROPS['C03'] = {
     'technique': 'static analysis: acquire/release typestate, dominance and dependence rules on MIR',
     'assumptions': COMMON_ASSUMPTIONS,
 }
+
+PROPS['C04'] = {
+    'modules': ['c04', 'fattype', 'c14'],
+    'level': 'other',
+    'quick_configs': ['default'],
+    'thorough_configs': ALL,
+    'controls': ['P3', 'P4'],
+    'floors': {'default': {'K1': 10, 'K3': 2, 'K4': 1, 'FT1': 1}},
+    'rule_text': 'obligations: 5 on-disk layouts x {encoder, decoder} compared field by field (78 specification fields) '
+                 'with the Microsoft FAT specification table; entry-position and extent provenance; the FAT-width table; '
+                 'the write-back must-calls shared with C14',
+    'explanation': 'K1 codec agreement by sequence extraction from the MIR: the primitive I/O calls of each serialize / '
+                   'deserialize are listed in control-flow order on the Ok path, per layout variant (is_fat32 arm; '
+                   'long/short entry arm), with widths from the primitive or the statically known buffer length (interval '
+                   'analysis of slice lengths), loops over fixed arrays multiplied out, nested codecs spliced in, and each '
+                   'value attributed to the struct field it comes from / ends up in; the resulting (offset, width, field) '
+                   'lists of encoder and decoder must both equal tables/spec_layouts.json transcribed from the FAT '
+                   'specification (an independent oracle: a bug symmetric in encoder and decoder is still caught), totals '
+                   '512/512/512/32/32. K3: DirEntryEditor positions derive from the stream position after the short entry '
+                   'minus 32. K4: extents = offset_from_cluster(cluster), min(cluster_size, bytes_left). FT1: FAT width '
+                   'table. K2: flush/drop/unmount write-back must-calls (C14 rules). Equality of observed trees across '
+                   'remount / independent decode is not decided.',
+    'claim': 'Writer, reader and specification agree on every on-disk field (offset, width, identity) of the five '
+             'structures; write-back on drop is must-called. Tree equality over histories is not decided.',
+    'level_note': 'the specification table maps spec field names to struct field names by hand (tables/spec_layouts.json)',
+    'technique': 'static analysis: codec sequence extraction from MIR + comparison with a specification table',
+    'assumptions': COMMON_ASSUMPTIONS,
+}
